@@ -329,3 +329,273 @@ Proof.
   - destruct (N.eqb _ _); [f_equal|]; exact IH.
   - exact IH.
 Qed.
+(* ---------- one bank: the merged image is the spec image ---------- *)
+Lemma nth_map_lt {A B} (f : A -> B) l i d d' : (i < length l)%nat -> nth i (map f l) d = f (nth i l d').
+Proof.
+  revert i. induction l as [|x l IH]; intros i H; cbn [length] in H; [lia|].
+  destruct i; cbn [map nth]; [reflexivity|]. apply IH. lia.
+Qed.
+Lemma nth_zrange lo n i d : (i < n)%nat -> nth i (zrange lo n) d = lo + Z.of_nat i.
+Proof.
+  intros H. unfold zrange. rewrite (nth_map_lt _ _ _ _ 0%nat) by (rewrite seq_length; exact H).
+  rewrite seq_nth by exact H. reflexivity.
+Qed.
+
+Lemma image_eq fill ss : Forall nonempty ss ->
+  let b := fold_left (merge fill) ss empty_bank in (k_lo b, k_data b) = spec_image fill ss.
+Proof.
+  intros Hne. destruct ss as [|s ss']; [reflexivity|].
+  set (segs := s :: ss') in *. cbn zeta.
+  destruct (merge_pointwise fill segs ltac:(discriminate) Hne) as (Hlo & Hhi & Hlen & Hpt).
+  unfold spec_image. fold segs. change (match segs with [] => (0, []) | _ :: _ => ?x end) with x.
+  cbv zeta. f_equal; [exact Hlo|].
+  set (b := fold_left (merge fill) segs empty_bank) in *.
+  apply (nth_ext _ _ 0%N 0%N).
+  - rewrite map_length. unfold zrange. rewrite map_length, seq_length. rewrite <- Hhi, <- Hlo. lia.
+  - intros i Hi. 
+    assert (Hn : (i < Z.to_nat (spec_hi segs - spec_lo segs))%nat) by (rewrite <- Hhi, <- Hlo; lia).
+    rewrite (nth_map_lt _ _ _ _ 0) by (unfold zrange; rewrite map_length, seq_length; exact Hn).
+    rewrite nth_zrange by exact Hn.
+    rewrite <- Hlo. rewrite <- Hpt by lia. f_equal. lia.
+Qed.
+
+Lemma filter_nonempty_id ss : Forall nonempty ss -> filter seg_nonempty ss = ss.
+Proof.
+  induction 1 as [|s ss Hs _ IH]; [reflexivity|]. cbn [filter]. unfold seg_nonempty at 1.
+  unfold nonempty in Hs. destruct (s_data s); [contradiction|]. now rewrite IH.
+Qed.
+
+Lemma bank_segments_nonempty d segs n : Forall nonempty segs -> Forall nonempty (bank_segments d segs n).
+Proof.
+  intros H. unfold bank_segments. apply Forall_forall. intros s Hs. apply filter_In in Hs as [Hs _].
+  exact (proj1 (Forall_forall _ _) H s Hs).
+Qed.
+
+(* spec_bank = the model's build_bank, errors <-> None *)
+Lemma bank_eq d segs o : Forall nonempty segs ->
+  spec_bank d segs o =
+  (let '(b, errs) := build_bank d segs o in match errs with [] => Some (k_lo b, k_data b) | _ => None end).
+Proof.
+  intros Hne. unfold spec_bank, build_bank.
+  rewrite filter_nonempty_id by (apply bank_segments_nonempty; exact Hne).
+  rewrite <- (image_eq (fill_of (b_fill o)) (bank_segments d segs (b_name o))) by (apply bank_segments_nonempty; exact Hne).
+  set (b := fold_left (merge (fill_of (b_fill o))) (bank_segments d segs (b_name o)) empty_bank).
+  cbv zeta. unfold finish_bank. destruct (b_size o) as [size|]; [|reflexivity].
+  set (len := Z.of_nat (length (k_data b))).
+  destruct (len =? size) eqn:E1.
+  - assert (A : (len <? size) = false) by lia. assert (B : (size <? len) = false) by lia. rewrite A, B. reflexivity.
+  - destruct (len <? size) eqn:E2.
+    + destruct (b_fill o); reflexivity.
+    + assert (B : (size <? len) = true) by lia. rewrite B. reflexivity.
+Qed.
+
+(* ---------- all banks ---------- *)
+Lemma all_some_built d segs banks : Forall nonempty segs ->
+  let built := map (fun o => (o, build_bank d segs o)) banks in
+  match all_some (map (spec_bank d segs) banks) with
+  | Some imgs => flat_map (fun x => snd (snd x)) built = [] /\
+                 imgs = map (fun x => (k_lo (fst (snd x)), k_data (fst (snd x)))) built
+  | None => flat_map (fun x => snd (snd x)) built <> []
+  end.
+Proof.
+  intros Hne. induction banks as [|o os IH]; cbn [map all_some flat_map]; [split; reflexivity|].
+  rewrite (bank_eq d segs o Hne). cbn [snd fst]. destruct (build_bank d segs o) as [b errs].
+  destruct errs as [|e errs']; cbn [snd fst].
+  - cbv zeta in IH. destruct (all_some (map (spec_bank d segs) os)) as [imgs|].
+    + destruct IH as [A B]. split; [exact A|]. cbn [app]. now rewrite B.
+    + cbn [app]. exact IH.
+  - cbn [app]. discriminate.
+Qed.
+
+(* ---------- files ---------- *)
+Lemma existsb_rev' {A} (p : A -> bool) l : existsb p (rev l) = existsb p l.
+Proof.
+  apply eq_iff_eq_true. rewrite !existsb_exists. split; intros (x & Hx & Hp); exists x; split; try assumption.
+  - now apply in_rev. - now apply in_rev in Hx.
+Qed.
+
+Lemma write_banks_keys bs : forall files,
+  map fst (fold_left (fun files b => append_file files (fst b) (snd b)) bs files)
+  = map fst files ++ distinct_names (map fst bs) (rev (map fst files)).
+Proof.
+  induction bs as [|[f d] bs IH]; intros files; cbn [fold_left map distinct_names fst snd].
+  - now rewrite app_nil_r.
+  - rewrite IH, append_file_names.
+    assert (E : existsb (fun x => fname_eqb (fst x) f) files = existsb (fname_eqb f) (rev (map fst files))).
+    { rewrite existsb_rev'. induction files as [|[g e] files IHf]; [reflexivity|]. cbn [existsb map fst].
+      rewrite IHf. f_equal. destruct g, f; cbn; try reflexivity. apply N.eqb_sym. }
+    rewrite <- E. destruct (existsb (fun x => fname_eqb (fst x) f) files); [reflexivity|].
+    rewrite rev_app_distr. cbn [rev app]. rewrite <- app_assoc. reflexivity.
+Qed.
+
+Lemma existsb_fname f seen : existsb (fname_eqb f) seen = true <-> In f seen.
+Proof.
+  rewrite existsb_exists. split.
+  - intros (x & Hx & E). apply fname_eqb_eq in E. now subst.
+  - intros H. exists f. split; [assumption|apply fname_eqb_refl].
+Qed.
+
+Lemma distinct_names_nodup l : forall seen,
+  NoDup (distinct_names l seen) /\ (forall x, In x (distinct_names l seen) -> ~ In x seen).
+Proof.
+  induction l as [|f l IH]; intros seen; cbn [distinct_names]; [split; [constructor|intros x []]|].
+  destruct (existsb (fname_eqb f) seen) eqn:E; [apply IH|].
+  destruct (IH (f :: seen)) as [Hnd Hnot]. split.
+  - constructor; [|exact Hnd]. intros Hin. apply (Hnot f Hin). now left.
+  - intros x [<-|Hx].
+    + intros Hin. apply existsb_fname in Hin. congruence.
+    + intros Hin. apply (Hnot x Hx). now right.
+Qed.
+
+Lemma assoc_canonical (l : list (option N * list N)) : NoDup (map fst l) ->
+  l = map (fun g => (g, file_of l g)) (map fst l).
+Proof.
+  induction l as [|[g d] l IH]; cbn [map fst]; intros Hnd; [reflexivity|].
+  inversion Hnd as [|? ? Hg Hnd']; subst. f_equal.
+  - unfold file_of. cbn [find fst snd]. now rewrite fname_eqb_refl.
+  - rewrite (IH Hnd') at 1. apply map_ext_in. intros h Hh. f_equal.
+    unfold file_of at 2. cbn [find fst].
+    destruct (fname_eqb g h) eqn:E; [|reflexivity]. apply fname_eqb_eq in E. subst. contradiction.
+Qed.
+
+Lemma write_banks_spec bs :
+  write_banks bs = map (fun f => (f, spec_file bs f)) (distinct_names (map fst bs) []).
+Proof.
+  pose proof (write_banks_keys bs []) as K. cbn [map rev app] in K. fold (write_banks bs) in K.
+  rewrite (assoc_canonical (write_banks bs)) by (rewrite K; apply distinct_names_nodup).
+  rewrite K. apply map_ext. intros f. now rewrite files_concat.
+Qed.
+
+(* ---------- the whole output stage refines the spec ---------- *)
+Definition rejected (r : build_result) : Prop := match r with BuildFiles _ => False | _ => True end.
+
+Lemma prg_header_spec' pc : prg_header pc = spec_prg_header pc.
+Proof.
+  unfold prg_header, spec_prg_header.
+  change 255 with (Z.ones 8). rewrite !Z.land_ones by lia. rewrite Z.shiftr_div_pow2 by lia. reflexivity.
+Qed.
+
+Theorem build_output_refines configured banks segs : banks <> [] -> Forall nonempty segs ->
+  match spec_build configured banks segs with
+  | Some files => build_output configured banks segs = BuildFiles files
+  | None => rejected (build_output configured banks segs)
+  end.
+Proof.
+  intros Hb Hne. destruct banks as [|first rest]; [congruence|]. clear Hb.
+  unfold spec_build, build_output, merge_segments. cbv beta iota zeta. set (banks := first :: rest).
+  set (d := b_name first).
+  assert (Hfa : forallb (fun s => existsb (N.eqb (bank_of d s)) (map b_name banks)) segs
+                = forallb (fun s => negb (seg_unknown d (map b_name banks) s)) segs).
+  { clear. induction segs as [|s segs IH]; [reflexivity|]. cbn [forallb]. rewrite IH. unfold seg_unknown. now rewrite negb_involutive. }
+  rewrite Hfa. clear Hfa.
+  set (errs0 := unknown_bank_errors d (map b_name banks) segs 0).
+  set (built := map (fun o => (o, build_bank d segs o)) banks).
+  pose proof (unknown_bank_errors_nil d (map b_name banks) segs 0) as H0. fold errs0 in H0.
+  destruct (forallb (fun s => negb (seg_unknown d (map b_name banks) s)) segs) eqn:Eu; cbn [negb].
+  2:{ destruct (match configured with Some Prg => negb (Nat.eqb (length banks) 1) | _ => false end); [exact I|].
+      destruct errs0 as [|e es]; [destruct H0 as [H0 _]; specialize (H0 eq_refl); discriminate|].
+      cbn [app]. cbv beta iota. exact I. }
+  destruct (match configured with Some Prg => negb (Nat.eqb (length banks) 1) | _ => false end) eqn:Eprg; [exact I|].
+  destruct H0 as [_ H0]. rewrite (H0 eq_refl). cbn [app].
+  pose proof (all_some_built d segs banks Hne) as Ha. cbv zeta in Ha. fold built in Ha.
+  destruct (all_some (map (spec_bank d segs) banks)) as [imgs|].
+  2:{ destruct (flat_map (fun x => snd (snd x)) built); [congruence|cbv beta iota; exact I]. }
+  destruct Ha as [Hnil Himgs]. rewrite Hnil.
+  f_equal. rewrite write_banks_spec.
+  assert (Hbs : map (fun x => (b_filename (fst x), k_data (snd x))) (map (fun x => (fst x, fst (snd x))) built)
+                = combine (map b_filename banks) (map snd imgs)).
+  { rewrite Himgs. unfold built. clearbody banks. clear. induction banks as [|o os IH]; [reflexivity|].
+    cbn [map combine fst snd]. now rewrite IH. }
+  rewrite Hbs.
+  destruct (output_format_of configured (length banks)); [|reflexivity].
+  subst banks. unfold built in *. cbn [map fst snd] in *. rewrite Himgs. rewrite prg_header_spec'. reflexivity.
+Qed.
+
+(* ---------- from the declared configuration (finalize) ---------- *)
+Definition project_rejected (r : project_result) : Prop :=
+  match r with ProjectUnassigned _ => True | ProjectBuilt b => rejected b end.
+
+Lemma combine_map_self {A B} (f : A -> B) (l : list A) : combine l (map f l) = map (fun x => (x, f x)) l.
+Proof. induction l as [|x l IH]; [reflexivity|]. cbn [map combine]. now rewrite IH. Qed.
+
+Lemma unassigned_nil (l : list (option N)) : forall k,
+  flat_map (fun x : nat * option N => match snd x with None => [fst x] | Some _ => [] end) (combine (seq k (length l)) l) = []
+  <-> forallb (fun b => match b with Some _ => true | None => false end) l = true.
+Proof.
+  induction l as [|b l IH]; intros k; cbn [length seq combine flat_map forallb]; [tauto|].
+  destruct b; cbn [snd fst app andb]; [apply IH|]. split; discriminate.
+Qed.
+
+Theorem build_project_refines default_name configured banks segs : Forall nonempty segs ->
+  match spec_project default_name configured banks segs with
+  | Some files => build_project default_name configured banks segs = ProjectBuilt (BuildFiles files)
+  | None => project_rejected (build_project default_name configured banks segs)
+  end.
+Proof.
+  intros Hne. unfold spec_project, build_project, finalize.
+  destruct banks as [|first rest].
+  - (* no banks declared: one default bank, every segment in it *)
+    cbn [map].
+    set (sb := map (fun b : option N => match b with None => Some default_name | Some x => Some x end) (map s_bank segs)).
+    assert (Hsome : forallb (fun b => match b with Some _ => true | None => false end) sb = true).
+    { unfold sb. rewrite map_map. clear. induction segs as [|s segs IH]; [reflexivity|]. cbn [map forallb]. rewrite IH.
+      destruct (s_bank s); reflexivity. }
+    assert (Hs2 : match sb with [None] => [Some default_name] | _ => sb end = sb).
+    { destruct sb as [|[x|] [|y l]]; try reflexivity. cbn in Hsome. discriminate. }
+    cbv beta iota zeta. rewrite Hs2. rewrite (proj2 (unassigned_nil sb 0) Hsome).
+    set (segs' := map (fun x => set_bank (fst x) (snd x)) (combine segs sb)).
+    assert (Hsegs : segs' = map (fun s => mkSeg (s_start s) (s_data s) (match s_bank s with None => Some default_name | b => b end) (s_write s)) segs).
+    { unfold segs', sb. rewrite map_map, combine_map_self, map_map. apply map_ext. intros s. unfold set_bank. cbn [fst snd].
+      destruct (s_bank s); reflexivity. }
+    rewrite <- Hsegs.
+    assert (Hne' : Forall nonempty segs').
+    { rewrite Hsegs. apply Forall_forall. intros s Hs. apply in_map_iff in Hs as (s0 & <- & H0).
+      exact (proj1 (Forall_forall _ _) Hne s0 H0). }
+    pose proof (build_output_refines configured [default_bank_options default_name] segs' ltac:(discriminate) Hne') as R.
+    unfold default_bank_options in *.
+    destruct (spec_build configured [mkBankOpts default_name None None None] segs'); [now rewrite R|exact R].
+  - (* banks declared *)
+    cbn [map]. cbv beta iota zeta.
+    destruct segs as [|s [|s2 more]].
+    + (* no segments *)
+      cbn [map forallb length seq combine flat_map]. cbv beta iota zeta. cbn [map combine].
+      pose proof (build_output_refines configured (first :: rest) [] ltac:(discriminate) Hne) as R.
+      destruct (spec_build configured (first :: rest) []); [now rewrite R|exact R].
+    + (* a single segment may leave the bank out *)
+      cbn [map]. destruct (s_bank s) as [b|] eqn:Eb; cbv beta iota zeta; cbn [length seq combine flat_map snd fst app map].
+      * assert (Hs : set_bank s (Some b) = mkSeg (s_start s) (s_data s) (Some b) (s_write s)) by reflexivity.
+        rewrite Hs.
+        assert (Hne' : Forall nonempty [mkSeg (s_start s) (s_data s) (Some b) (s_write s)]).
+        { constructor; [|constructor]. inversion Hne; subst. assumption. }
+        pose proof (build_output_refines configured (first :: rest) _ ltac:(discriminate) Hne') as R.
+        destruct (spec_build configured (first :: rest) [mkSeg (s_start s) (s_data s) (Some b) (s_write s)]); [now rewrite R|exact R].
+      * assert (Hs : set_bank s (Some (b_name first)) = mkSeg (s_start s) (s_data s) (Some (b_name first)) (s_write s)) by reflexivity.
+        rewrite Hs.
+        assert (Hne' : Forall nonempty [mkSeg (s_start s) (s_data s) (Some (b_name first)) (s_write s)]).
+        { constructor; [|constructor]. inversion Hne; subst. assumption. }
+        pose proof (build_output_refines configured (first :: rest) _ ltac:(discriminate) Hne') as R.
+        destruct (spec_build configured (first :: rest) [mkSeg (s_start s) (s_data s) (Some (b_name first)) (s_write s)]); [now rewrite R|exact R].
+    + (* several segments: every one must name a bank *)
+      assert (Hs2 : forall (l : list (option N)) a b x, match a :: b :: l with [None] => [Some x] | _ => a :: b :: l end = a :: b :: l)
+        by (intros l a b x; destruct a; reflexivity).
+      cbn [map]. rewrite !(Hs2 _ _ _ (b_name first)).
+      change (s_bank s :: s_bank s2 :: map s_bank more) with (map s_bank (s :: s2 :: more)).
+      remember (s :: s2 :: more) as segs eqn:Esegs.
+      set (sb := map s_bank segs).
+      assert (Hlen : exists x y r, segs = x :: y :: r) by (subst; eauto).
+      cbv beta iota zeta.
+      assert (Hfa : forallb (fun s0 => match s_bank s0 with Some _ => true | None => false end) segs
+                    = forallb (fun b => match b with Some _ => true | None => false end) sb).
+      { unfold sb. clear. induction segs as [|x l IH]; [reflexivity|]. cbn [map forallb]. now rewrite IH. }
+      rewrite Hfa. pose proof (unassigned_nil sb 0) as U.
+      destruct (forallb (fun b => match b with Some _ => true | None => false end) sb) eqn:Ef.
+      * rewrite (proj2 U eq_refl).
+        assert (Hsegs : map (fun x => set_bank (fst x) (snd x)) (combine segs sb) = segs).
+        { unfold sb. rewrite combine_map_self, map_map. rewrite <- (map_id segs) at 2. apply map_ext. intros x.
+          unfold set_bank. cbn [fst snd]. destruct x; reflexivity. }
+        rewrite Hsegs.
+        pose proof (build_output_refines configured (first :: rest) segs ltac:(discriminate) Hne) as R.
+        destruct (spec_build configured (first :: rest) segs); [now rewrite R|exact R].
+      * destruct (flat_map _ (combine (seq 0 (length sb)) sb)) eqn:Eun; [|exact I].
+        destruct U as [U _]. specialize (U eq_refl). discriminate.
+Qed.
